@@ -949,14 +949,14 @@ class Engine:
                     process_timestep = process.calculate_timestep(states)
 
                     future = process_time + process_timestep
+                    if self.global_time_precision is not None:
+                        # set future time based on global_time_precision
+                        future = round(future, self.global_time_precision)
                     if force_complete and future > end_time:
                         # force the process to complete at end_time,
                         # simulating only the remaining interval
                         future = end_time
                         process_timestep = end_time - process_time
-                    if self.global_time_precision is not None:
-                        # set future time based on global_time_precision
-                        future = round(future, self.global_time_precision)
 
                     if future <= end_time:
 
